@@ -105,7 +105,9 @@ def _make_float_literal(value: float) -> cst.BaseExpression:
     if math.isinf(value):
         literal = "'inf'" if value > 0 else "'-inf'"
         return cst.Call(func=cst.Name("float"), args=[cst.Arg(value=cst.SimpleString(literal))])
-    if value < 0:
+    if value < 0 or (value == 0 and math.copysign(1.0, value) < 0):
+        # ``-0.0 < 0`` is false, but ``str(-0.0)`` carries a sign, too, which
+        # ``cst.Float`` cannot hold.
         return cst.UnaryOperation(operator=cst.Minus(), expression=cst.Float(str(-value)))
     return cst.Float(str(value))
 
